@@ -313,7 +313,20 @@ fn pivot_cloud(rng: &mut Rng) {
                 }
             }
             v.require(bad_touch.is_none(), "ball_pivot.centre_one_radius_from_both_points", || format!("n={n} radius={radius} step {:?}", bad_touch));
-            v.require(bad_inside.is_none(), "ball_pivot.no_point_strictly_inside_ball", || format!("n={n} radius={radius} (step, point, distance) {:?}", bad_inside));
+            // KNOWN FINDING (KNOWN_FINDINGS.txt): a candidate whose contact angle is positive but below the 1e-6 rad
+            // guard of the pivot loop is skipped; the ball then rolls over that point.  Such a point lay (to within
+            // 1e-5 of the radius) ON an earlier ball of the sequence - three points on one ball - before it ended up
+            // inside.  Only that situation gets the listed clause name; any other point inside a ball is reported
+            // under the unlisted one.
+            let cocircular = bad_inside.map_or(false, |(j, k, _): (usize, usize, f64)| {
+                // a THIRD point on ball q (not one of its two contacts)
+                (0..=j).any(|q| q + 1 < idx.len() && k != idx[q] && k != idx[q + 1] && ((centers[q] - pts[k]).norm() - radius).abs() <= 1e-5 * radius)
+            });
+            if cocircular {
+                v.require(false, "ball_pivot.no_point_strictly_inside_ball_after_near_cocircular_contact", || format!("n={n} radius={radius} (step, point, distance) {:?}", bad_inside));
+            } else {
+                v.require(bad_inside.is_none(), "ball_pivot.no_point_strictly_inside_ball", || format!("n={n} radius={radius} (step, point, distance) {:?}", bad_inside));
+            }
             // the loop itself, statement by statement, in the model (start resolved as the code resolves StartOnConvex)
             if n <= 400 {
                 let hull = convex_hull_2d(&pts);
